@@ -8,7 +8,9 @@
    [model_ok p chunks closed] = c15_ok applied to the model's run on [chunks].
    [wf_params p] = sanity of the reader's constants (holds for the pinned tree: c15_nonvacuous).
    [frame_ok p m] = m is a valid frame for the oracle (8=<begin>|9=<n>|<n bytes>10=ddd|, n >= 1,
-   n <= _max_msg_len - _bg_sz - 7) AND its BodyLength field is shorter than val[] (2048). *)
+   n <= _max_msg_len - _bg_sz - 7, BodyLength written with at most ValSz-1 = 2047 characters).
+   extract_element is the one repaired by commit d48d8ce (bounded by the callers' arrays);
+   [safe_params p] = the buffers exist and the constants do not wrap. *)
 From Coq Require Import NArith List Bool Arith.
 From F8 Require Import C15.Reader C15.Spec_C15 C15.ReaderProofs.
 Import ListNotations.
@@ -50,7 +52,7 @@ Print Assumptions c15_valid_streams_ok.
 (* Corrupted preamble after any valid frames, any chunking — BodyLength made of digits (fewer than
    2048) whose value, AS THE CODE READS IT (mod 2^32), is zero or above the limit: InvalidBodyLength,
    exactly the valid frames handed on, oracle satisfied.  (dec w < 2^32 makes "mod" vanish; for
-   dec w >= 2^32 the hypothesis can fail: c15_overflow_refuted.) *)
+   dec w >= 2^32 the hypothesis can fail: c15_bodylength_wrap_refuted.) *)
 Theorem c15_bad_bodylength_partial : forall p msgs chunks w tail closed,
   wf_params p = true -> Forall (fun m => frame_ok p m = true) msgs ->
   concat chunks = concat msgs ++ header (p_begin p) ++ w ++ [SOH] ++ tail ->
@@ -98,33 +100,60 @@ Theorem c15_fuel_enough : forall p chunks closed, snd (run p chunks closed) <> E
 Proof. exact fuel_enough_lemma. Qed.
 Print Assumptions c15_fuel_enough.
 
-(* F19: the property is violated.  32 digits + SOH overflow tag[32] (31 do not); a first or second
-   field value of 2048 bytes overflows val[2048] (2047 do not); BodyLength 2^32+5 is read as 5:
-   the oracle says corrupted preamble, the reader hands a 5-byte-body frame on. *)
-Theorem c15_overflow_refuted :
-  (run P42 [w_tag32] true = ([], EOob) /\ model_ok P42 [w_tag32] true = false /\
-   run P42 [w_tag31] true = ([], EIllegal w_tag31)) /\
-  (run P42 [w_val1 2048] true = ([], EOob) /\ model_ok P42 [w_val1 2048] true = false /\
-   run P42 [w_val1 2047] true = ([], EBadVersion (repeat 49%N (N.to_nat 2047)))) /\
-  (run P42 [w_val2 2048] true = ([], EOob) /\ model_ok P42 [w_val2 2048] true = false /\
-   exists n, run P42 [w_val2 2047] true = ([], EBadLen n)) /\
-  (run P42 [w_wrap] true = ([w_wrap], EPeerReset) /\
-   spec_frame fix42 (len_limit P42) w_wrap = FBad /\ model_ok P42 [w_wrap] true = false).
-Proof. exact overflow_refuted_lemma. Qed.
-Print Assumptions c15_overflow_refuted.
+(* No out-of-bounds write for ANY stream, chunking and configuration with existing buffers: the
+   instrumented writes into msg_buf / tag / val never reach their capacity. *)
+Theorem c15_no_oob : forall p chunks closed,
+  safe_params p = true -> snd (run p chunks closed) <> EOob.
+Proof. exact no_oob_lemma. Qed.
+Print Assumptions c15_no_oob.
 
-(* Further violations found while transcribing: "9=:" (13th byte never inspected) is BodyLength 10;
+(* Over-long tags and values (the former overflow inputs), after any valid frames, any chunking:
+   a run of >= TagSz digits where the first or the second tag is read, or a first / second field
+   value of >= ValSz bytes: the reader ends with IllegalMessage (or is out of bytes), and exactly
+   the valid frames are handed on.  ([long_field_rest] spells out the four positions; a longer run
+   is covered by putting its remainder into [tail].) *)
+Theorem c15_long_field_error : forall p msgs chunks rest closed,
+  wf_params p = true -> Forall (fun m => frame_ok p m = true) msgs ->
+  concat chunks = concat msgs ++ rest -> long_field_rest p rest ->
+  exists e, run p chunks closed = (msgs, e) /\
+            match e with EWait | EPeerReset | EIllegal _ => True | _ => False end.
+Proof. exact long_field_lemma. Qed.
+Print Assumptions c15_long_field_error.
+
+(* F19 (repaired by d48d8ce): with the ORIGINAL extract_element 32 digits overflowed tag[32] (31 did
+   not) and a 2048-byte value overflowed val[2048] (2047 did not); with the repaired one the same
+   streams are refused with IllegalMessage and satisfy the oracle. *)
+Theorem c15_overflow_orig_refuted :
+  (extract_element_orig P42 w_tag32 = EEOob SiteTag /\
+   extract_element_orig P42 w_tag31 = EERet 0 (repeat 55%N 31) [] /\
+   extract_element_orig P42 (w_val1 2048) = EEOob SiteVal /\
+   extract_element_orig P42 (w_val1 2047) = EERet (N.to_nat 2050) [56%N] (repeat 49%N (N.to_nat 2047))) /\
+  (run P42 [w_tag32] true = ([], EIllegal w_tag32) /\ model_ok P42 [w_tag32] true = true) /\
+  (run P42 [w_val1 2048] true = ([], EIllegal (w_val1 2048)) /\ model_ok P42 [w_val1 2048] true = true) /\
+  (run P42 [w_val2 2048] true = ([], EIllegal (w_val2 2048)) /\ model_ok P42 [w_val2 2048] true = true).
+Proof. exact overflow_orig_refuted_lemma. Qed.
+Print Assumptions c15_overflow_orig_refuted.
+
+(* F19, not repaired: BodyLength 2^32+5 is read as 5: the oracle says corrupted preamble
+   (oversized), the reader hands a 5-byte-body frame on. *)
+Theorem c15_bodylength_wrap_refuted :
+  run P42 [w_wrap] true = ([w_wrap], EPeerReset) /\
+  spec_frame fix42 (len_limit P42) (max_width P42) w_wrap = FBad /\ model_ok P42 [w_wrap] true = false.
+Proof. exact bodylength_wrap_refuted_lemma. Qed.
+Print Assumptions c15_bodylength_wrap_refuted.
+
+(* Further violations found while transcribing (not repaired): "9=:" (13th byte never inspected) is BodyLength 10;
    tags 88 / 93 pass for 8 / 9 (first character only); "FIX.4.2\0" passes for FIX.4.2 (C-string
    compare).  In each case a frame with a corrupted preamble is handed to the session. *)
 Theorem c15_lenient_preamble_refuted :
   (run P42 [w_colon] true = ([w_colon], EPeerReset) /\
-   spec_frame fix42 (len_limit P42) w_colon = FBad /\ model_ok P42 [w_colon] true = false) /\
+   spec_frame fix42 (len_limit P42) (max_width P42) w_colon = FBad /\ model_ok P42 [w_colon] true = false) /\
   (run P42 [w_tag88] true = ([w_tag88], EPeerReset) /\
-   spec_frame fix42 (len_limit P42) w_tag88 = FBad /\ model_ok P42 [w_tag88] true = false) /\
+   spec_frame fix42 (len_limit P42) (max_width P42) w_tag88 = FBad /\ model_ok P42 [w_tag88] true = false) /\
   (run P42 [w_tag93] true = ([w_tag93], EPeerReset) /\
-   spec_frame fix42 (len_limit P42) w_tag93 = FBad /\ model_ok P42 [w_tag93] true = false) /\
+   spec_frame fix42 (len_limit P42) (max_width P42) w_tag93 = FBad /\ model_ok P42 [w_tag93] true = false) /\
   (run P42 [w_nul] true = ([w_nul], EPeerReset) /\
-   spec_frame fix42 (len_limit P42) w_nul = FBad /\ model_ok P42 [w_nul] true = false).
+   spec_frame fix42 (len_limit P42) (max_width P42) w_nul = FBad /\ model_ok P42 [w_nul] true = false).
 Proof. exact lenient_preamble_refuted_lemma. Qed.
 Print Assumptions c15_lenient_preamble_refuted.
 
